@@ -72,6 +72,14 @@ structure Rq where
 structure SpecSt where
   live : List Rq := []     -- oldest first
   peers : List Nat := []
+  collided : Bool := false -- two requests live at this agent shared a bare request id at some point
+
+/-- Failures in a case with such a collision carry the signature of the known finding. -/
+def ftag (s : SpecSt) (what : String) : String :=
+  if s.collided then "c39-collision-" ++ what else "c39-" ++ what
+
+def addRq (s : SpecSt) (r : Rq) : SpecSt :=
+  { s with live := s.live ++ [r], collided := s.collided || s.live.any (fun x => x.id == r.id) }
 
 def parseItems (out : String) : List String :=
   match out.splitOn "out=[" with
@@ -93,20 +101,20 @@ def specStep (s : SpecSt) (l : String) : SpecSt × String :=
       match items with
       | [it] =>
         match it.splitOn ":" with
-        | [hop, "req", id, _, _] => ({ s with live := s.live ++ [⟨hop.toNat!, id.toNat!, none⟩] }, "ok")
+        | [hop, "req", id, _, _] => (addRq s ⟨hop.toNat!, id.toNat!, none⟩, "ok")
         | _ => (s, "ok")
       | _ => (s, "ok")
     | "req" :: p :: _ =>
       match items with
       | [it] =>
         match it.splitOn ":" with
-        | [hop, "req", id, _, _] => ({ s with live := s.live ++ [⟨hop.toNat!, id.toNat!, some p.toNat!⟩] }, "ok")
+        | [hop, "req", id, _, _] => (addRq s ⟨hop.toNat!, id.toNat!, some p.toNat!⟩, "ok")
         | _ => (s, "ok")
       | _ => (s, "ok")
     | ["resp", p, i, ok, tag] =>
       let (p, i) := (p.toNat!, i.toNat!)
       match s.live.find? (fun r => r.hop == p && r.id == i) with
-      | none => (s, if items.isEmpty then "ok" else "fail c39-phantom")
+      | none => (s, if items.isEmpty then "ok" else "fail " ++ ftag s "phantom")
       | some r =>
         let s' := { s with live := s.live.erase r }
         let want : List String :=
@@ -114,8 +122,8 @@ def specStep (s : SpecSt) (l : String) : SpecSt × String :=
           | none => [s!"deliver:{i}:{ok}:{tag}"]
           | some q => if s.peers.contains q then [s!"{q}:resp:{i}:{ok}:{tag}"] else []
         if items == want then (s', "ok")
-        else if items.isEmpty then (s', "fail c39-dropped")
-        else (s', "fail c39-misdelivered")
+        else if items.isEmpty then (s', "fail " ++ ftag s "dropped")
+        else (s', "fail " ++ ftag s "misdelivered")
     | _ => (s, "ok")
   | _ => (s, "bad-op")
 
